@@ -33,6 +33,7 @@ ASSUMPTIONS = [
     'a load pulse is effective while the adapter is active; a load pulse while it is inactive may or may not be captured (both values '
     'admissible until one is offered with VALID, then the adapter is held to it)',
     'VALID persistence is the obligation "VALID stays 1 until the cycle tvalid&tready or ap_reset" (ap_done is not a reset of VALID); '
+    'a reset ends the offer: after an edge with ap_reset=1 (and no load pulse in that same cycle) VALID is 0, whether or not the adapter was active; '
     'what VALID does after an accepted beat is not constrained by the statement (re-offers are counted as informational notes)',
     '"sent rises only after an accepted beat": a 0->1 edge of sent needs tvalid&tready in that cycle or a beat accepted while active '
     'since the last restart/reset/done (latency left open by the statement)',
@@ -273,6 +274,13 @@ def _run_shard(d):
         core.reset_prepared()
         return {'constructor_rejected': 1, 'configs': 1, 'vacuous_ok': True, 'distinct_outcomes': 0,
                 'samples': [{'config': d, 'rejected': repr(e)[:200]}], 'violations': []}
+    # power-up: what a user reads right after getSimulator(), before any clock call, already satisfies the same-observation
+    # clauses (READY == active, LAST == VALID, the constant KEEP mask, cleared registers)
+    pu = powerup_problem(d)
+    if pu:
+        return {'configs': 1, 'vacuous_ok': True, 'distinct_outcomes': 0, 'states': 1, 'transitions': 0,
+                'samples': [{'config': d}],
+                'violations': [{'sig': 'C16:%s:at_power_up' % pu['sigkey'], 'shard': d, 'trace': [], 'detail': pu}]}
     ctxs = []
     cnt = {'pruned': 0, 'unmet': 0}
     notes = {}
@@ -344,8 +352,23 @@ def finish(cov, results, tier):
     cov['width_violations'] = sum(len(r.get('width_violations', [])) for r in results)
 
 
+def powerup_problem(d):
+    with core.quiet():
+        c = build(d)
+    for (tag, mon, _, om), st in zip(c.mons, c.ms):
+        pre = _read(om)
+        bad = mon.settled(st, pre)
+        if bad:
+            return {'sigkey': '%s:%s' % (tag, bad[0][0]), 'when': 'after getSimulator(), before any clock call, all inputs 0',
+                    'observed': pre, 'clause': bad[0][1]}
+    return None
+
+
 def replay(v):
     d = v['shard']
+    if v['sig'].endswith(':at_power_up'):
+        pu = powerup_problem(d)
+        return {'config': d, 'steps': [], 'violates': pu is not None, 'power_up': pu}
     c = build(d)
     steps, bad = [], None
     for i, x in enumerate(v['trace']):
